@@ -263,11 +263,12 @@ def main(prop, cfg):
         rc = C.EXIT_VIOLATION
     elif undecided:
         rc = C.EXIT_UNDECIDED
-    C.write_evidence(prop, cfg.get("level", "model_checking"), cov, cfg.get("assumptions", []) + (["UNDECIDED: " + u for u in undecided]), time.time() - t0, violations)
     for n in notes:
         C.say(n)
     for u in undecided:
         C.say("UNDECIDED " + u)
+    rc = C.settle(rc, c_ok + sum(1 for r in brows if r["result"]["status"] == "ok") + (vsum["discharged"] if vsum else 0))
+    C.write_evidence(prop, cfg.get("level", "model_checking"), cov, cfg.get("assumptions", []) + (["UNDECIDED: " + u for u in undecided]), time.time() - t0, violations)
     for ln in lines:
         C.say(ln)
     C.say("%s: layer B %d/%d harnesses ok, layer C %d/%d definitions ok%s, %.1fs, exit %d" % (
